@@ -250,6 +250,12 @@ def make_monitors():
 
 
 def gen_kwargs(rng):
+    if rng.random() < 0.06:
+        # 8-handed stud played to seventh street: the last card is a shared
+        # community card (deck exhausted) and decides some showdowns
+        return dict(games=gen.STUD_GAMES, customs=(), chip_types=('int',),
+                    strict_p=1.0, auto_styles=('any', 'all', 'typical'),
+                    min_n=8, hostile_chips=False)
     return dict(
         customs=CUSTOMS, p_custom=0.3,
         games=gen.ALL_GAMES + gen.HILO_GAMES * 3,
@@ -289,6 +295,8 @@ def pol_tweak(pol, cfg, rng):
     pol['policy'] = rng.choice(['passive', 'passive', 'aggressive', 'allin',
                                 'uniform'])
     pol['muck'] = 'never'
+    if cfg.get('game') in gen.STUD_GAMES and cfg['n'] >= 8:
+        pol['policy'] = 'passive'
 
 
 def nontrivial(ctx):
